@@ -24,7 +24,7 @@ TOL = 1e-9
 
 def grid_cfg(maxdim, maxsize, emit, minsize=2):
     return (f"CONSTANTS MaxDim = {maxdim} MaxSize = {maxsize} MinSize = {minsize} Emit = {'TRUE' if emit else 'FALSE'}\n"
-            "INIT Init\nNEXT Next\nINVARIANT AllInv\nINVARIANT SelectionLaw\nINVARIANT EmitInv\nCHECK_DEADLOCK FALSE\n")
+            "INIT Init\nNEXT Next\nINVARIANT AllInv\nINVARIANT SelectionLaw\nINVARIANT OffsetLaw\nINVARIANT EmitInv\nCHECK_DEADLOCK FALSE\n")
 
 
 def _lattice(args):
@@ -250,6 +250,8 @@ def run(ck):
                 ck.skipped.append({"rows": c["rows"], "config": conf, "why": nt})
             else:
                 ck.note_drift(nt)
+    from harness import extras
+    extras.grid_options(ck, [j for j in jobs if j[1][0] != "BGL"][:60 if ck.quick else 400])      # specification growth (refinement tier only)
     ck.evaluations = len(jobs) + len(lres)
     ck.sample({"lattice": lat.emitted[len(lat.emitted) // 2]})
     ck.sample({"rows": jobs[0][0]["rows"], "config": jobs[0][1]})
